@@ -1,6 +1,7 @@
 //! C30: block traversal: era probe, tx count, per-index tx assembly.
 //! fn: pallas_traverse::probe::block_era
 //! fn: pallas_traverse::MultiEraBlock::{era,tx_count,is_empty,has_aux_data}
+//! stub: minicbor::decode::Tokenizer::{new, next} -> 40-line CBOR head model in c30.rs (mod model): Array(n) / U8 / U16 heads exact for 1-3 byte heads, every other item abstracted to "some other token or an error"; anchored by c30_q_era_real_tokens on the real tokenizer (one token, concrete input)
 //! outside: decoding real blocks (MultiEraBlock::decode beyond the wrapper probe), auxiliary-data maps with >= 2 entries
 //! outside: block_era oracle = CBOR data model restricted to what minicbor's Tokenizer calls Array(2) and U8: array head of any width with length 2, then an unsigned integer in its 1- or 2-byte form; wider (non-canonical) integer heads for the era tag are reported Inconclusive by design and are accepted as such
 use pallas_traverse::probe::{block_era, Outcome};
@@ -52,46 +53,108 @@ fn oracle(b: &[u8; 4], n: usize) -> u8 {
     }
 }
 
-macro_rules! era_probe {
-    ($name:ident, $lo:expr, $hi:expr) => {
-        #[kani::proof]
-        #[kani::unwind(6)]
-        #[kani::stub(std::fmt::format, crate::stubs::fmt_format_stub)]
-        fn $name() {
-            let b: [u8; 4] = kani::any();
-            let n: usize = kani::any();
-            kani::assume(n <= 4);
-            kani::assume(n == 0 || (b[0] >= $lo && b[0] <= $hi));
-            let o = block_era(&b[..n]);
-            let c = code(&o);
-            assert!(c == oracle(&b, n), "probe result equals the wrapper tag table");
-            kani::cover!(n == 4, "four bytes");
-            core::mem::forget(o);
-        }
-    };
-}
-// bound: 0..=4 arbitrary bytes (length symbolic), first byte restricted to one CBOR major type per harness (union = all bytes); unwind 6
-era_probe!(c30_q_era_mt0_uint, 0x00, 0x1f);
-era_probe!(c30_q_era_mt1_nint, 0x20, 0x3f);
-era_probe!(c30_q_era_mt2_bytes, 0x40, 0x5f);
-era_probe!(c30_q_era_mt5_map, 0xa0, 0xbf);
-era_probe!(c30_q_era_mt6_tag, 0xc0, 0xdf);
-era_probe!(c30_q_era_mt7_simple, 0xe0, 0xff);
+/// Model of minicbor's Tokenizer (see `stub:`): the real one is not symbolically executable beyond one
+/// token (measured: two `next()` calls on a *concrete* 3-byte input: no verdict in 150 s; one call with a
+/// symbolic first byte: no verdict in 150 s). State lives in statics because Tokenizer's fields are private.
+mod model {
+    use pallas_codec::minicbor::{self, data::Token, decode::Error, decode::Tokenizer};
+    pub static mut BUF: [u8; 4] = [0; 4];
+    pub static mut LEN: usize = 0;
+    pub static mut POS: usize = 0;
 
-/// first byte = array head: the only class with non-trivial outcomes; every table row is witnessed
-/// bound: 0..=4 arbitrary bytes (length symbolic), first byte in 0x80..=0x9f; unwind 6
+    pub fn new_stub<'a, 'b>(bytes: &'b [u8]) -> Tokenizer<'a, 'b>
+    where
+        'a: 'a,
+        'b: 'b,
+    {
+        unsafe {
+            let mut i = 0;
+            while i < 4 {
+                if i < bytes.len() {
+                    BUF[i] = bytes[i];
+                }
+                i += 1;
+            }
+            LEN = bytes.len();
+            POS = 0;
+        }
+        Tokenizer::from(minicbor::Decoder::new(bytes))
+    }
+
+    /// CBOR head at POS: (major type, argument) for definite heads of width 0/1/2 bytes; wider heads,
+    /// indefinite heads and reserved values are abstracted (None)
+    fn head() -> Option<(u8, u64)> {
+        unsafe {
+            let b = BUF[POS];
+            let mt = b >> 5;
+            let ai = b & 0x1f;
+            if ai < 24 {
+                POS += 1;
+                Some((mt, ai as u64))
+            } else if ai == 24 {
+                if POS + 1 < LEN {
+                    let v = BUF[POS + 1] as u64;
+                    POS += 2;
+                    Some((mt, v))
+                } else {
+                    POS = LEN;
+                    None
+                }
+            } else if ai == 25 {
+                if POS + 2 < LEN {
+                    let v = ((BUF[POS + 1] as u64) << 8) | BUF[POS + 2] as u64;
+                    POS += 3;
+                    Some((mt, v))
+                } else {
+                    POS = LEN;
+                    None
+                }
+            } else {
+                // 4/8-byte arguments cannot be followed by anything within 4 bytes; indefinite / reserved
+                POS = LEN;
+                None
+            }
+        }
+    }
+
+    pub fn next_stub<'a, 'b>(_t: &mut Tokenizer<'a, 'b>) -> Option<Result<Token<'b>, Error>>
+    where
+        'a: 'a,
+        'b: 'b,
+    {
+        unsafe {
+            if POS >= LEN {
+                return None;
+            }
+            let b0 = BUF[POS];
+            match head() {
+                Some((4, n)) => Some(Ok(Token::Array(n))),
+                // minicbor: 0x00..=0x18 is U8; 0x19 is U16 even when the value fits a byte
+                Some((0, v)) if b0 <= 0x18 => Some(Ok(Token::U8(v as u8))),
+                Some((0, v)) => Some(Ok(Token::U16(v as u16))),
+                // every other item: abstracted to "some token that is neither Array nor U8" or an error
+                _ => {
+                    if kani::any() {
+                        Some(Ok(Token::Null))
+                    } else {
+                        Some(Err(Error::message("abstracted")))
+                    }
+                }
+            }
+        }
+    }
+}
+
+/// bound: 0..=4 arbitrary bytes (length symbolic); unwind 6
 #[kani::proof]
 #[kani::unwind(6)]
 #[kani::stub(std::fmt::format, crate::stubs::fmt_format_stub)]
-fn c30_q_era_mt4_array() {
+#[kani::stub(pallas_codec::minicbor::decode::Tokenizer::new, model::new_stub)]
+#[kani::stub(<pallas_codec::minicbor::decode::Tokenizer as std::iter::Iterator>::next, model::next_stub)]
+fn c30_q_era_table() {
     let b: [u8; 4] = kani::any();
     let n: usize = kani::any();
     kani::assume(n <= 4);
-    kani::assume(n == 0 || (b[0] >= 0x80 && b[0] <= 0x9f));
-    // text strings as the *second* item go through std's UTF-8 validator: see c30_q_era_second_text
-    kani::assume(!(n >= 2 && b[0] == 0x82 && b[1] >= 0x60 && b[1] <= 0x7f));
-    kani::assume(!(n >= 3 && b[0] == 0x98 && b[1] == 2 && b[2] >= 0x60 && b[2] <= 0x7f));
-    kani::assume(!(n >= 4 && b[0] == 0x99 && b[1] == 0 && b[2] == 2 && b[3] >= 0x60 && b[3] <= 0x7f));
     let o = block_era(&b[..n]);
     let c = code(&o);
     assert!(c == oracle(&b, n), "probe result equals the wrapper tag table");
@@ -103,61 +166,47 @@ fn c30_q_era_mt4_array() {
     kani::cover!(c == 6, "alonzo");
     kani::cover!(c == 7, "babbage");
     kani::cover!(c == 8 && b[0] == 0x98, "conway behind a 2-byte array head");
+    kani::cover!(c == 8 && b[0] == 0x99, "conway behind a 3-byte array head");
     kani::cover!(c == 8 && b[1] == 0x18, "conway with a 2-byte tag");
     kani::cover!(c == 0 && n >= 2 && b[0] == 0x82 && b[1] == 8, "tag 8 is unknown");
+    kani::cover!(c == 0 && n == 4 && b[0] == 0x82 && b[1] == 0x19, "3-byte tag form is inconclusive");
+    kani::cover!(c == 0 && n == 0, "empty input");
     core::mem::forget(o);
 }
 
-/// text string as first item
-/// bound: 0..=4 arbitrary bytes, first byte in 0x60..=0x7f (text: std UTF-8 validation of <= 3 payload bytes); unwind 6
+/// the real minicbor Tokenizer, one token, concrete inputs: anchors the model's two relevant rows
+/// bound: concrete inputs `82`, `98 02`, `07`, `18 07` (one token each); unwind 6
 #[kani::proof]
 #[kani::unwind(6)]
 #[kani::stub(std::fmt::format, crate::stubs::fmt_format_stub)]
-fn c30_q_era_mt3_text() {
-    let b: [u8; 4] = kani::any();
-    let n: usize = kani::any();
-    kani::assume(n >= 1 && n <= 4);
-    kani::assume(b[0] >= 0x60 && b[0] <= 0x7f);
-    let o = block_era(&b[..n]);
-    assert!(code(&o) == 0, "a text string is never a block wrapper");
-    kani::cover!(n == 4 && b[0] == 0x63, "3-byte text");
-    core::mem::forget(o);
+fn c30_q_era_real_tokens() {
+    use pallas_codec::minicbor::{data::Token, decode::Tokenizer};
+    let b1 = [0x82u8];
+    let r = Tokenizer::new(&b1).next();
+    let ok1 = matches!(r, Some(Ok(Token::Array(2))));
+    core::mem::forget(r);
+    let b2 = [0x98u8, 2];
+    let r = Tokenizer::new(&b2).next();
+    let ok2 = matches!(r, Some(Ok(Token::Array(2))));
+    core::mem::forget(r);
+    let b3 = [0x07u8];
+    let r = Tokenizer::new(&b3).next();
+    let ok3 = matches!(r, Some(Ok(Token::U8(7))));
+    core::mem::forget(r);
+    let b4 = [0x18u8, 7];
+    let r = Tokenizer::new(&b4).next();
+    let ok4 = matches!(r, Some(Ok(Token::U8(7))));
+    core::mem::forget(r);
+    kani::cover!(ok1, "reached");
+    assert!(ok1 && ok2 && ok3 && ok4, "real tokenizer agrees with the model on array(2) and u8 heads");
 }
-
-/// text string as second item of a 2-array (std UTF-8 validation on the payload)
-macro_rules! second_text {
-    ($name:ident, $off:expr, $h0:expr, $h1:expr, $h2:expr) => {
-        #[kani::proof]
-        #[kani::unwind(6)]
-        #[kani::stub(std::fmt::format, crate::stubs::fmt_format_stub)]
-        fn $name() {
-            let mut b: [u8; 4] = kani::any();
-            let n: usize = kani::any();
-            kani::assume(n >= $off + 1 && n <= 4);
-            b[0] = $h0;
-            if $off >= 2 {
-                b[1] = $h1;
-            }
-            if $off >= 3 {
-                b[2] = $h2;
-            }
-            kani::assume(b[$off] >= 0x60 && b[$off] <= 0x7f);
-            let o = block_era(&b[..n]);
-            assert!(code(&o) == 0, "a text string is never an era tag");
-            kani::cover!(n == 4, "four bytes");
-            core::mem::forget(o);
-        }
-    };
-}
-// bound: array(2) head concrete per harness (82 / 98 02 / 99 00 02), then a text-string head 0x60..=0x7f and arbitrary payload up to 4 bytes in total; unwind 6
-second_text!(c30_q_era_second_text_82, 1, 0x82, 0, 0);
-second_text!(c30_q_era_second_text_98, 2, 0x98, 2, 0);
-second_text!(c30_q_era_second_text_99, 3, 0x99, 0, 2);
 
 /// vacuity twin: must come back FAILED
 #[kani::proof]
 #[kani::unwind(6)]
 #[kani::stub(std::fmt::format, crate::stubs::fmt_format_stub)]
+#[kani::stub(pallas_codec::minicbor::decode::Tokenizer::new, model::new_stub)]
+#[kani::stub(<pallas_codec::minicbor::decode::Tokenizer as std::iter::Iterator>::next, model::next_stub)]
 fn c30_v_twin() {
     let b: [u8; 4] = kani::any();
     let o = block_era(&b[..2]);
